@@ -1,7 +1,8 @@
 """C05 Spectral binning is an overlap-weighted mean of the native spectrum."""
 import ast
+import re
 
-from sa.helpers import (guard_is, same_cond, the_return, mkflow, spec, code, one, calls, bind_call, param_env,
+from sa.helpers import (resolve_guards, has_guard, guard_is, same_cond, the_return, mkflow, spec, code, one, calls, bind_call, param_env,
                         loop_matches, fmt, atom_of, unparse, unalloc, call_kw)
 from sa.index import AnalysisError
 from sa.algebra import RF, Slice, p_atom
@@ -96,40 +97,65 @@ def flux_init(ix, R):
         if len(g) != 1 or not fl.tab.equal(g[0].value, spec(fl, 'g[p]', dict(pe, p=perm))):
             why.append('self._wngrid = %s' % [fmt(fl, e.value) for e in g])
         ws = st.get('self._wngrid_width', [])
-        arr = [e for e in ws if fl.tab.equal(e.value, spec(fl, 'w[p]', dict(pe, p=perm)))]
-        if len(arr) != 1:
-            why.append('width array is not indexed by the grid permutation: %s' % [
-                fmt(fl, e.value) for e in ws])
+        # (which widths end up in the attribute for which kind of input is 1.init.final; here: no statement stores the
+        #  raw width array combined with something else, which no re-ordering afterwards could repair)
         for e in ws:
-            if e in arr:
+            if fl.tab.equal(e.value, spec(fl, 'w[p]', dict(pe, p=perm))) or has_guard(e.value):
                 continue
             if mentions_raw(fl, e.value, pe['w'], perm) and not fl.tab.equal(e.value, pe['w']) \
                     and 'ones_like' not in fmt(fl, e.value):
                 why.append('width stored unpermuted: %s' % unparse(e.node))
-        dflt = [e for e in ws if fl.tab.equal(e.value, spec(fl, 'compute_bin_edges(self._wngrid)[-1]'))
-                or fl.tab.equal(e.value, spec(fl, 'compute_bin_edges(self._wngrid)[1]'))]
-        if len(dflt) != 1:
-            why.append('default widths are not compute_bin_edges(sorted grid)[-1]')
         R.check('1.init', 'PERM', site, stmt, not why, key='; '.join(why), detail='; '.join(why),
                 loc=f.loc())
         # what the attributes hold when the constructor returns
         fa = mkflow(ix, site, forward_attrs=True)
         pa = param_env(fa, f, ['g', 'w'])
         b = dict(pa, p=spec(fa, 'argsort(g)', pa))
-        b['W1'] = spec(fa, "_guard(w is None, compute_bin_edges(g[p])[-1], _guard(hasattr(w, '__len__'), w[p], w))", b)
-        wantw = spec(fa, "_guard(hasattr(W1, '__len__'), W1, ones_like(g[p])*W1)", b)
         gotw = fa.conv.env.get('@self._wngrid_width')
         gotg = fa.conv.env.get('@self._wngrid')
         why2 = []
+        und = []
         if gotg is None or not fa.tab.equal(gotg, spec(fa, 'g[p]', b)):
             why2.append('self._wngrid ends as %s' % (fmt(fa, gotg) if gotg is not None else None))
-        if gotw is None or not fa.tab.equal(gotw, wantw):
-            why2.append('self._wngrid_width ends as %s' % (fmt(fa, gotw)[:300] if gotw is not None else None))
+        # the widths, by kind of input.  Facts used to settle `hasattr(x, '__len__')`: the re-ordered width array, the
+        # widths computed from the grid and anything multiplied by ones_like(grid) are arrays.
+        arrays = [spec(fa, 'w[p]', b), spec(fa, 'compute_bin_edges(g[p])[-1]', b), spec(fa, 'compute_bin_edges(g[p])[1]', b)]
+        c_none, f_none = fa.tab.canon_cond(spec(fa, 'w is None', b))
+
+        def scenario(is_none, is_array):
+            def decide(c):
+                if fa.tab.equal(c, c_none):
+                    return is_none != f_none
+                at = atom_of(fa, c)
+                if at is not None and at.head == 'call' and at.extra == ('fn:hasattr',) and len(at.args) == 2 and \
+                        fmt(fa, at.args[1]) in ("'__len__'", '"__len__"'):
+                    x = at.args[0]
+                    if fa.tab.equal(x, b['w']):
+                        return None if is_none else is_array
+                    if any(fa.tab.equal(x, y) for y in arrays) or 'ones_like' in fmt(fa, x):
+                        return True
+                return None
+            return decide
+        cases = [('no widths given', scenario(True, False), ['compute_bin_edges(g[p])[-1]', 'compute_bin_edges(g[p])[1]']),
+                 ('a width array', scenario(False, True), ['w[p]']),
+                 ('one width for all bins', scenario(False, False), ['ones_like(g[p])*w'])]
+        for name, dec, wants in cases:
+            if gotw is None:
+                why2.append('self._wngrid_width is not set')
+                break
+            v = resolve_guards(fa, gotw, dec)
+            if has_guard(v):
+                und.append('%s: the widths depend on a test this rule cannot settle: %s' % (name, fmt(fa, v)[:200]))
+            elif not any(fa.tab.equal(v, spec(fa, w_, b)) for w_ in wants):
+                why2.append('%s: self._wngrid_width ends as %s, expected %s' % (name, fmt(fa, v)[:200], wants[0]))
         rs = fa.of('raise')
         okr = len(rs) == 1 and rs[0].guards and guard_is(
             fa, rs[0].guards[-1], spec(fa, 'len(w) != len(g[p])', b), True) if rs else False
         if not okr:
             why2.append('a width array of another length than the grid is not rejected')
+        if und and not why2:
+            R.error('1.init.final', 'ALG', site, 'after construction: widths by kind of input', '; '.join(und), loc=f.loc())
+            return
         R.check('1.init.final', 'ALG', site,
                 'after construction: grid = sorted grid; widths = given array re-ordered with the grid (length checked), '
                 'or the given scalar / the default spacing of the sorted grid, expanded to one width per bin',
@@ -580,15 +606,43 @@ def _run(ix, R):
             if ok and not (len(dg) == 1 and hs and fl.tab.equal(atom_of(fl, dg[0].value).args[1], hs[0].args[1])):
                 ok = False
                 missing = ['digitize does not use the edge array of the 1-D branch']
-        R.check('5.hist.2d', 'ALG', site, stmt, ok, key='; '.join(m[:70] for m in missing),
-                detail='no statements of the expected shape: %s' % missing, loc=f.loc())
+        if bnd is None:
+            R.error('5.hist.2d', 'ALG', site, stmt, 'no statements of the expected shape: %s' % missing, loc=f.loc())
+        else:
+            R.check('5.hist.2d', 'ALG', site, stmt, ok, key='; '.join(m[:70] for m in missing),
+                    detail='the statements are there but: %s' % missing, loc=f.loc())
+    stmt = ('the histogram binner does not depend on the order of the native points: the native grid and data only enter '
+            'order-insensitive operations (digitize / histogram / masks), never a positional search or a segment reduction')
+    with R.guard('5.hist.order', 'PERM', site, stmt):
+        f = ix.func(site)
+        fl = mkflow(ix, site)
+        ps = f.params()
+        natives = [fl.tab.name(ps[0]), fl.tab.name(ps[1])]
+        POSITIONAL = {'searchsorted': 'binary search', 'reduceat': 'segment reduction', 'cumsum': 'running sum',
+                      'diff': 'neighbour difference', 'interp': 'interpolation table'}
+        sorts = [e for e in fl.of('call') if e.name in ('sort', 'argsort', 'sorted', 'lexsort')]
+        why = []
+        for e in fl.of('call'):
+            if e.name not in POSITIONAL:
+                continue
+            hay = e.recv_rf if (e.recv_rf is not None and fmt(fl, e.recv_rf) not in ('np', 'numpy', 'np.add')) else \
+                (e.args[0] if e.args else None)
+            if e.name == 'interp':
+                hay = e.args[1] if len(e.args) > 1 else None
+            if hay is None:
+                continue
+            words = set(re.findall(r'[A-Za-z_][A-Za-z_0-9]*', fmt(fl, hay)))
+            if any(fl.tab.equal(hay, n) or fmt(fl, n) in words for n in natives):
+                if not sorts:
+                    why.append('%s over %s (%s), which this function never sorts' % (e.name, fmt(fl, hay)[:60], POSITIONAL[e.name]))
+        R.check('5.hist.order', 'PERM', site, stmt, not why, key='; '.join(why), detail='; '.join(why), loc=f.loc())
 
 
 MUTANTS = [
     ('regress-f10', FB, "        if hasattr(grid_width, '__len__'):\n            grid_width = grid_width[sorted_input]\n", "", '1.perm.w'),
     ('regress-f11-axis', FB, "old_spect_err[..., save_start:save_stop + 1] ** 2, axis=-1)", "old_spect_err[..., save_start:save_stop + 1] ** 2, axis=0)", '3.error'),
     ('regress-f11-store', FB, "bin_error[..., idx] = sum_noise", "bin_error[idx] = sum_noise", '3.error'),
-    ('init-width-unsorted', FB, 'self._wngrid_width = wngrid_width[sort_grid]', 'self._wngrid_width = wngrid_width', '1.init'),
+    ('init-width-unsorted', FB, 'self._wngrid_width = wngrid_width[sort_grid]', 'self._wngrid_width = wngrid_width', '1.init.final'),
     ('init-grid-unsorted', FB, 'self._wngrid = wngrid[sort_grid]', 'self._wngrid = wngrid', '1.init'),
     ('spectrum-unsorted', FB, 'spectrum = spectrum[..., sorted_input]\n', 'spectrum = spectrum\n', '1.perm.S'),
     ('error-unsorted', FB, 'error = error[..., sorted_input]', 'error = error', '1.perm.E'),
